@@ -1,12 +1,958 @@
-//! Family `fs`: C12 C13 — layered filesystem.  (stub)
+//! Family `fs`: C12 C13 (+ the filesystem clause of C14) — `LayeredFilesystem` over real temp directories.
+//!
+//! A case is a history: the first line creates 1-4 layer directories (or fails: unsupported game,
+//! no layers), every later line is one filesystem call.  After every call the harness prints the
+//! return value and a full sorted directory walk of every layer (layer roots appear only as L0..L3).
+//!
+//! Case lines (`~` = absent, `-` = empty, payloads are referenced by index into the case's table):
+//!   <id> new <game> <lang> <n> <P> <A> <tree0> .. <tree{n-1}>
+//!        P = `;`-separated payload records `hex,cz,dz,d0..d11`: payload bytes, mila's compress /
+//!            decompress of it for the game's format (`!` = error, `o<hex>` = ok) and digests of the
+//!            typed parsers applied to it (bin BE, bin LE, text SJIS/BE, SJIS/LE, UTF16/BE, UTF16/LE,
+//!            fe9 pack, 3DS arc, tpl, bch, ctpk, cgfx).  The table is the graph of the *abstract*
+//!            codecs of the model restricted to the byte strings that can occur in the case.
+//!        A = `,`-separated: serialisation (payload index or `!`) of the four fixed typed archives
+//!        tree = `,`-separated `hexpath:d` / `hexpath:f:p<i>` (parents listed before children)
+//!   <id> write <path> p<i> <loc> | read <path> <loc> | exists|file_exists|directory_exists|resolve|create_dir <path> <loc>
+//!   <id> list <path> <pat|~> <loc> | subdirs <path> <loc>
+//!   <id> read_archive|read_text|read_fe9arc|read_arc|read_tpl|read_bch|read_ctpk|read_cgfx <path> <loc>
+//!   <id> write_archive|write_text <path> a<k> <loc> | cfg
+//! Implementation line: `<id> <outcome..> | <walk L0> <walk L1> ..` with walk = `,`-separated
+//! `hexpath:d` / `hexpath:f:<hex>` sorted by path bytes.
 #![allow(unused)]
 use crate::util::*;
+use indexmap::IndexMap;
+use mila::*;
+use std::collections::HashMap;
+use std::path::{Path, PathBuf};
 
-pub fn gen(_seed: u64, _tier: &str) -> Vec<String> {
-    Vec::new()
+pub const GAMES: [&str; 7] = ["FE9", "FE10", "FE13", "FE14", "FE15", "FE11", "FE12"];
+use super::loc::{language, localizer, LANGS};
+
+fn game(name: &str) -> Game {
+    match name {
+        "FE9" => Game::FE9,
+        "FE10" => Game::FE10,
+        "FE11" => Game::FE11,
+        "FE12" => Game::FE12,
+        "FE13" => Game::FE13,
+        "FE14" => Game::FE14,
+        "FE15" => Game::FE15,
+        _ => panic!("game {}", name),
+    }
 }
 
-pub fn run_line(_st: &mut super::State, line: &str) -> String {
-    let id = line.split(' ').next().unwrap_or("?");
-    format!("{} unimplemented", id)
+/// Which LZ format the *property statement* assigns to a game (used for the codec table only).
+fn is_lz10_game(g: &str) -> bool {
+    g == "FE9" || g == "FE10"
+}
+fn compress_for(g: &str, b: &[u8]) -> Option<Vec<u8>> {
+    let r = no_panic(|| {
+        if is_lz10_game(g) {
+            LZ10CompressionFormat {}.compress(b).ok()
+        } else {
+            LZ13CompressionFormat {}.compress(b).ok()
+        }
+    });
+    r.unwrap_or(None)
+}
+fn decompress_for(g: &str, b: &[u8]) -> Option<Vec<u8>> {
+    let r = no_panic(|| {
+        if is_lz10_game(g) {
+            LZ10CompressionFormat {}.decompress(b).ok()
+        } else {
+            LZ13CompressionFormat {}.decompress(b).ok()
+        }
+    });
+    r.unwrap_or(None)
+}
+
+// ---------------------------------------------------------------------------------------------
+// digests of typed results (shared by the table in `gen` and by the typed reads in `run_line`)
+// ---------------------------------------------------------------------------------------------
+
+fn dig(s: &str) -> String {
+    format!("o{:016x}", fnv(s))
+}
+fn dig_bin(a: &BinArchive) -> String {
+    match a.serialize() {
+        Ok(b) => dig(&format!("bin {} {}", a.size(), hex(&b))),
+        Err(_) => dig(&format!("bin {} serr", a.size())),
+    }
+}
+fn dig_text(t: &TextArchive) -> String {
+    let mut s = format!("text title={}", hexs(t.get_title()));
+    for (k, v) in t.get_entries() {
+        s.push_str(&format!(" {}={}", hexs(k), hexs(v)));
+    }
+    dig(&s)
+}
+fn dig_pack(m: &IndexMap<String, Vec<u8>>) -> String {
+    let mut s = "pack".to_string();
+    for (k, v) in m {
+        s.push_str(&format!(" {}={}", hexs(k), hex(v)));
+    }
+    dig(&s)
+}
+fn dig_arc(m: &HashMap<String, Vec<u8>>) -> String {
+    let mut ks: Vec<&String> = m.keys().collect();
+    ks.sort();
+    let mut s = "arc".to_string();
+    for k in ks {
+        s.push_str(&format!(" {}={}", hexs(k), hex(&m[k])));
+    }
+    dig(&s)
+}
+fn dig_tex_vec(v: &[Texture]) -> String {
+    let mut s = "texv".to_string();
+    for t in v {
+        s.push_str(&format!(" {}:{}:{}:{}", hexs(&t.filename), t.width, t.height, hex(&t.pixel_data)));
+    }
+    dig(&s)
+}
+fn dig_tex_map(m: &HashMap<String, Texture>) -> String {
+    let mut ks: Vec<&String> = m.keys().collect();
+    ks.sort();
+    let mut s = "texm".to_string();
+    for k in ks {
+        let t = &m[k];
+        s.push_str(&format!(" {}:{}:{}:{}", hexs(&t.filename), t.width, t.height, hex(&t.pixel_data)));
+    }
+    dig(&s)
+}
+fn tex_vec_to_map(v: Vec<Texture>) -> HashMap<String, Texture> {
+    v.into_iter().map(|t| (t.filename.clone(), t)).collect()
+}
+fn wrap<T, E>(r: Result<Result<T, E>, String>, f: impl Fn(&T) -> String) -> String {
+    match r {
+        Err(_) => "p".to_string(),
+        Ok(Err(_)) => "!".to_string(),
+        Ok(Ok(v)) => f(&v),
+    }
+}
+
+/// The twelve typed digests of one byte string, in table order.
+fn typed_digests(b: &[u8]) -> Vec<String> {
+    let mut d = Vec::new();
+    for e in [Endian::Big, Endian::Little] {
+        d.push(wrap(no_panic(|| BinArchive::from_bytes(b, e)), dig_bin));
+    }
+    for f in [TextArchiveFormat::ShiftJIS, TextArchiveFormat::Unicode] {
+        for e in [Endian::Big, Endian::Little] {
+            d.push(wrap(no_panic(|| TextArchive::from_bytes(b, f, e)), dig_text));
+        }
+    }
+    d.push(wrap(no_panic(|| fe9_arc::parse(b)), dig_pack));
+    d.push(wrap(no_panic(|| arc::from_bytes(b)), dig_arc));
+    d.push(wrap(no_panic(|| tpl::Tpl::extract_textures(b)), |v| dig_tex_vec(v)));
+    d.push(wrap(no_panic(|| bch::read(b).map(tex_vec_to_map)), dig_tex_map));
+    d.push(wrap(no_panic(|| ctpk::read(b).map(tex_vec_to_map)), dig_tex_map));
+    d.push(wrap(no_panic(|| cgfx::read(b).map(tex_vec_to_map)), dig_tex_map));
+    d
+}
+
+// ---------------------------------------------------------------------------------------------
+// the four fixed typed archives (built with the public API)
+// ---------------------------------------------------------------------------------------------
+
+fn bin_archive(k: usize) -> BinArchive {
+    let e = if k == 0 { Endian::Big } else { Endian::Little };
+    let mut a = BinArchive::new(e);
+    a.allocate_at_end(8);
+    a.write_u32(0, 0x01020304).unwrap();
+    a.write_u16(4, 0xA1B2).unwrap();
+    a.write_label(4, "Lbl").unwrap();
+    a
+}
+fn text_archive(k: usize) -> TextArchive {
+    let mut t = if k == 2 {
+        TextArchive::new(TextArchiveFormat::ShiftJIS, Endian::Big)
+    } else {
+        TextArchive::new(TextArchiveFormat::Unicode, Endian::Little)
+    };
+    t.set_title("Ttl".to_string());
+    t.set_message("MID_A", "Hi ｱ");
+    t
+}
+fn archive_bytes(k: usize) -> Option<Vec<u8>> {
+    let r = no_panic(|| {
+        if k < 2 {
+            bin_archive(k).serialize().ok()
+        } else {
+            text_archive(k).serialize().ok()
+        }
+    });
+    r.unwrap_or(None)
+}
+
+// ---------------------------------------------------------------------------------------------
+// generator
+// ---------------------------------------------------------------------------------------------
+
+const NAMES: [&str; 20] = [
+    "a", "b", "c", "m", "f", ".h", ".hd", "g.txt", "x.lz", "y.cms", "z.cmp", "t.bin", "u.bin.lz", "a b", "é.txt", "@E",
+    "E", "e_f", "e_y.cms", "lz",
+];
+const EXTS: [&str; 5] = ["txt", "lz", "bin", "cms", "cmp"];
+
+struct Table {
+    recs: Vec<Vec<u8>>,
+}
+impl Table {
+    fn idx(&mut self, b: &[u8]) -> usize {
+        if let Some(i) = self.recs.iter().position(|x| x == b) {
+            return i;
+        }
+        self.recs.push(b.to_vec());
+        self.recs.len() - 1
+    }
+}
+
+/// Base payloads S0 of a case; typed archive serialisations are payloads 6..9 (when they exist).
+fn base_payloads(rng: &mut Rng) -> (Vec<Vec<u8>>, Vec<Option<usize>>) {
+    let mut s0: Vec<Vec<u8>> = vec![
+        vec![],
+        vec![0x41],
+        b"hello".to_vec(),
+        vec![b'a'; 40],
+        b"abcabcabcabcabcabcabcabcabcabcabcabc".to_vec(),
+        rng.bytes(24),
+    ];
+    let mut arch = Vec::new();
+    for k in 0..4 {
+        match archive_bytes(k) {
+            Some(b) => {
+                if let Some(i) = s0.iter().position(|x| *x == b) {
+                    arch.push(Some(i));
+                } else {
+                    s0.push(b);
+                    arch.push(Some(s0.len() - 1));
+                }
+            }
+            None => arch.push(None),
+        }
+    }
+    let mut m: IndexMap<String, Vec<u8>> = IndexMap::new();
+    m.insert("f.bin".to_string(), vec![1, 2, 3]);
+    if let Ok(b) = fe9_arc::serialize(&m) {
+        s0.push(b);
+    }
+    (s0, arch)
+}
+
+/// `P` and `A` fields of the `new` line. Records: S0 first (so that `p<i>` indexes S0), then the closure
+/// under compress/decompress for the game's format.
+fn table_fields(g: &str, s0: &[Vec<u8>], arch: &[Option<usize>]) -> (String, String) {
+    let mut t = Table { recs: s0.to_vec() };
+    let mut i = 0;
+    // closure: compress(S0), decompress(S0 ∪ compress(S0)); one more round covers reads of stored files
+    let n0 = s0.len();
+    for j in 0..n0 {
+        if let Some(c) = compress_for(g, &s0[j]) {
+            t.idx(&c);
+        }
+    }
+    let n1 = t.recs.len();
+    for j in 0..n1 {
+        let b = t.recs[j].clone();
+        if let Some(d) = decompress_for(g, &b) {
+            t.idx(&d);
+        }
+    }
+    let mut recs = Vec::new();
+    while i < t.recs.len() {
+        let b = t.recs[i].clone();
+        let cz = match compress_for(g, &b) {
+            Some(c) => hex(&c),
+            None => "!".to_string(),
+        };
+        let dz = match decompress_for(g, &b) {
+            Some(d) => format!("o{}", hex(&d)),
+            None => "!".to_string(),
+        };
+        let mut f = vec![hex(&b), cz, dz];
+        f.extend(typed_digests(&b));
+        recs.push(f.join(","));
+        i += 1;
+    }
+    let a: Vec<String> = arch
+        .iter()
+        .map(|x| match x {
+            Some(i) => format!("p{}", i),
+            None => "!".to_string(),
+        })
+        .collect();
+    (recs.join(";"), a.join(","))
+}
+
+#[derive(Clone)]
+enum Ent {
+    Dir,
+    File(usize),
+}
+
+/// Builds a consistent tree from (path, entry) wishes: parents become directories, clashes are skipped.
+fn build_tree(wishes: &[(String, Ent)]) -> Vec<(String, Ent)> {
+    let mut tree: Vec<(String, Ent)> = Vec::new();
+    'w: for (p, e) in wishes {
+        let comps: Vec<&str> = p.split('/').filter(|c| !c.is_empty() && *c != ".").collect();
+        if comps.is_empty() || comps.iter().any(|c| *c == "..") {
+            continue;
+        }
+        // every proper prefix must be absent or a directory; the path itself must be absent
+        for k in 1..=comps.len() {
+            let q = comps[..k].join("/");
+            if let Some((_, x)) = tree.iter().find(|(t, _)| *t == q) {
+                if k == comps.len() {
+                    continue 'w;
+                }
+                if let Ent::File(_) = x {
+                    continue 'w;
+                }
+            }
+        }
+        for k in 1..comps.len() {
+            let q = comps[..k].join("/");
+            if !tree.iter().any(|(t, _)| *t == q) {
+                tree.push((q, Ent::Dir));
+            }
+        }
+        tree.push((comps.join("/"), e.clone()));
+    }
+    tree
+}
+fn tree_field(tree: &[(String, Ent)]) -> String {
+    if tree.is_empty() {
+        return "-".to_string();
+    }
+    tree.iter()
+        .map(|(p, e)| match e {
+            Ent::Dir => format!("{}:d", hexs(p)),
+            Ent::File(i) => format!("{}:f:p{}", hexs(p), i),
+        })
+        .collect::<Vec<_>>()
+        .join(",")
+}
+
+fn localized(g: &str, lang: &str, p: &str) -> Option<String> {
+    if g == "FE11" || g == "FE12" {
+        return None;
+    }
+    no_panic(|| localizer(g).localize(p, &language(lang)).ok()).unwrap_or(None)
+}
+
+fn new_line(id: &str, g: &str, lang: &str, s0: &[Vec<u8>], arch: &[Option<usize>], trees: &[Vec<(String, Ent)>]) -> String {
+    let (p, a) = table_fields(g, s0, arch);
+    let mut l = format!("{} new {} {} {} {} {}", id, g, lang, trees.len(), p, a);
+    for t in trees {
+        l.push(' ');
+        l.push_str(&tree_field(t));
+    }
+    l
+}
+
+fn b01(b: bool) -> &'static str {
+    if b {
+        "1"
+    } else {
+        "0"
+    }
+}
+
+/// Fixed scenario run for every game x language: configuration table through the typed helpers,
+/// compressed suffixes, localized access.
+fn config_case(rng: &mut Rng, id: &str, g: &str, lang: &str) -> Vec<String> {
+    let (s0, arch) = base_payloads(rng);
+    let trees = vec![
+        build_tree(&[("t/low.bin".to_string(), Ent::File(2)), ("m/x".to_string(), Ent::Dir)]),
+        build_tree(&[("t".to_string(), Ent::Dir)]),
+    ];
+    let mut l = vec![new_line(id, g, lang, &s0, &arch, &trees)];
+    let mut op = |s: String| l.push(format!("{} {}", id, s));
+    op("cfg".to_string());
+    if g == "FE11" || g == "FE12" {
+        // `new` fails (unsupported game): nothing else to run
+        return l;
+    }
+    for k in 0..4 {
+        let w = if k < 2 { "write_archive" } else { "write_text" };
+        for name in ["t/r.bin", "t/z.bin.lz", "t/z.cms", "t/z.cmp"] {
+            op(format!("{} {} a{} 0", w, hexs(name), k));
+            op(format!("read {} 0", hexs(name)));
+            op(format!("read_archive {} 0", hexs(name)));
+            op(format!("read_text {} 0", hexs(name)));
+        }
+    }
+    op(format!("write {} p{} 0", hexs("t/p.arc"), s0.len() - 1));
+    for r in ["read_fe9arc", "read_arc", "read_tpl", "read_bch", "read_ctpk", "read_cgfx"] {
+        op(format!("{} {} 0", r, hexs("t/p.arc")));
+        op(format!("{} {} 0", r, hexs("t/none")));
+    }
+    // localized access
+    for name in ["m/GameData.bin.lz", "m/x/y.cms", "m/plain.txt", "single.lz", "single.cms", "single"] {
+        op(format!("write {} p3 1", hexs(name)));
+        op(format!("read {} 1", hexs(name)));
+        op(format!("exists {} 1", hexs(name)));
+        op(format!("file_exists {} 1", hexs(name)));
+        op(format!("resolve {} 1", hexs(name)));
+        if let Some(q) = localized(g, lang, name) {
+            op(format!("read {} 0", hexs(&q)));
+            op(format!("resolve {} 0", hexs(&q)));
+        }
+    }
+    op(format!("create_dir {} 1", hexs("m/newdir")));
+    op(format!("directory_exists {} 1", hexs("m/newdir")));
+    for d in ["m", "m/x", "", "single"] {
+        op(format!("list {} ~ 1", hexs(d)));
+        op(format!("subdirs {} 1", hexs(d)));
+        if let Some(q) = localized(g, lang, d) {
+            op(format!("list {} ~ 0", hexs(&q)));
+            op(format!("subdirs {} 0", hexs(&q)));
+        }
+    }
+    op(format!("list {} ~ 0", hexs("")));
+    l
+}
+
+fn rand_path(rng: &mut Rng, names: &[&str]) -> String {
+    let depth = match rng.below(10) {
+        0..=2 => 1,
+        3..=6 => 2,
+        _ => 3,
+    };
+    let mut comps: Vec<&str> = Vec::new();
+    for _ in 0..depth {
+        comps.push(*rng.pick(names));
+    }
+    comps.join("/")
+}
+
+fn rand_pattern(rng: &mut Rng, names: &[&str]) -> String {
+    match rng.below(9) {
+        0 | 1 => "~".to_string(),
+        2 => hexs("*"),
+        3 => hexs("**/*"),
+        4 => hexs(&format!("*.{}", rng.pick(&EXTS))),
+        5 | 6 => hexs(&format!("**/*.{}", rng.pick(&EXTS))),
+        _ => hexs(&format!("{}/*", rng.pick(names))),
+    }
+}
+
+fn history_case(rng: &mut Rng, id: &str, g: &str, lang: &str, nlayers: usize, max_ops: usize) -> Vec<String> {
+    let (s0, arch) = base_payloads(rng);
+    // per-case name pool: small, so that paths collide (shadowing, file-vs-directory clashes)
+    let mut names: Vec<&str> = Vec::new();
+    let k = rng.range(3, 6) as usize;
+    while names.len() < k {
+        let n = *rng.pick(&NAMES);
+        if !names.contains(&n) {
+            names.push(n);
+        }
+    }
+    // always one name with the game's compressed suffix
+    let sfx = if is_lz10_game(g) { *rng.pick(&["y.cms", "z.cmp"]) } else { *rng.pick(&["x.lz", "u.bin.lz"]) };
+    if !names.contains(&sfx) {
+        names.push(sfx);
+    }
+    // logical (unlocalised) paths the history talks about
+    let mut logical: Vec<String> = Vec::new();
+    for _ in 0..rng.range(4, 9) {
+        logical.push(rand_path(rng, &names));
+    }
+    let mut trees = Vec::new();
+    for _ in 0..nlayers {
+        let mut wishes = Vec::new();
+        for _ in 0..rng.range(0, 7) {
+            let mut p = if rng.chance(4, 5) { rng.pick(&logical).clone() } else { rand_path(rng, &names) };
+            if rng.chance(1, 3) {
+                if let Some(q) = localized(g, lang, &p) {
+                    p = q;
+                }
+            }
+            let e = if rng.chance(1, 4) { Ent::Dir } else { Ent::File(rng.below(s0.len() as u64) as usize) };
+            wishes.push((p, e));
+        }
+        trees.push(build_tree(&wishes));
+    }
+    let mut l = vec![new_line(id, g, lang, &s0, &arch, &trees)];
+    let nops = rng.range(6, max_ops as u64) as usize;
+    let mut count = 0;
+    while count < nops {
+        // path: mostly a logical path or one of its prefixes, sometimes decorated
+        let mut p = if rng.chance(5, 6) { rng.pick(&logical).clone() } else { rand_path(rng, &names) };
+        if rng.chance(1, 5) {
+            if let Some(i) = p.rfind('/') {
+                p.truncate(i);
+            }
+        }
+        match rng.below(40) {
+            0 => p = String::new(),
+            1 => p = ".".to_string(),
+            2..=5 => p.push('/'),
+            6 => p = format!("./{}", p),
+            _ => {}
+        }
+        let loc = rng.chance(2, 5);
+        let lb = b01(loc);
+        let ph = hexs(&p);
+        let mut ops: Vec<String> = Vec::new();
+        match rng.below(100) {
+            0..=21 => {
+                let pi = rng.below(s0.len() as u64);
+                ops.push(format!("write {} p{} {}", ph, pi, lb));
+                if rng.chance(1, 2) {
+                    ops.push(format!("read {} {}", ph, lb));
+                }
+                if rng.chance(1, 4) {
+                    ops.push(format!("file_exists {} {}", ph, lb));
+                }
+                if !logical.contains(&p) && !p.is_empty() {
+                    logical.push(p.clone());
+                }
+            }
+            22..=35 => ops.push(format!("read {} {}", ph, lb)),
+            36..=40 => ops.push(format!("exists {} {}", ph, lb)),
+            41..=45 => ops.push(format!("file_exists {} {}", ph, lb)),
+            46..=49 => ops.push(format!("directory_exists {} {}", ph, lb)),
+            50..=54 => ops.push(format!("resolve {} {}", ph, lb)),
+            55..=61 => {
+                ops.push(format!("create_dir {} {}", ph, lb));
+                if rng.chance(1, 3) {
+                    ops.push(format!("directory_exists {} {}", ph, lb));
+                }
+            }
+            62..=80 => ops.push(format!("list {} {} {}", ph, rand_pattern(rng, &names), lb)),
+            81..=88 => ops.push(format!("subdirs {} {}", ph, lb)),
+            89..=92 => {
+                let k = rng.below(4);
+                let w = if k < 2 { "write_archive" } else { "write_text" };
+                ops.push(format!("{} {} a{} {}", w, ph, k, lb));
+                ops.push(format!("{} {} {}", if k < 2 { "read_archive" } else { "read_text" }, ph, lb));
+            }
+            _ => {
+                let r = *rng.pick(&["read_archive", "read_text", "read_fe9arc", "read_arc", "read_tpl", "read_bch", "read_ctpk", "read_cgfx"]);
+                ops.push(format!("{} {} {}", r, ph, lb));
+            }
+        }
+        // the same call, unlocalised, on the localised path (C14: all operations apply the same mapping)
+        if loc && rng.chance(1, 3) {
+            if let Some(q) = localized(g, lang, &p) {
+                let first: Vec<&str> = ops[0].split(' ').collect();
+                if first[0] != "write" && !first[0].starts_with("write_") && first[0] != "create_dir" {
+                    let mut f: Vec<String> = first.iter().map(|s| s.to_string()).collect();
+                    f[1] = hexs(&q);
+                    let last = f.len() - 1;
+                    f[last] = "0".to_string();
+                    ops.push(f.join(" "));
+                }
+            }
+        }
+        for o in ops {
+            l.push(format!("{} {}", id, o));
+            count += 1;
+        }
+    }
+    l
+}
+
+/// Systematic listing block: one fixed three-layer tree, every directory (root, nested, empty, missing,
+/// a file, file-in-one-layer/dir-in-another) x every pattern of the family, plus subdirectories.
+fn listing_case(rng: &mut Rng, id: &str, g: &str, lang: &str) -> Vec<String> {
+    let (s0, arch) = base_payloads(rng);
+    let f = |i: usize| Ent::File(i);
+    let trees = vec![
+        build_tree(&[
+            ("d/e/x.txt".to_string(), f(1)),
+            ("d/.hd/y.txt".to_string(), f(2)),
+            (".h".to_string(), f(0)),
+            ("f".to_string(), f(2)),
+            ("d/k.lz".to_string(), f(3)),
+            ("q/only0".to_string(), Ent::Dir),
+        ]),
+        build_tree(&[
+            ("d/z.txt".to_string(), f(1)),
+            ("d/e/x.txt".to_string(), f(4)),
+            ("g".to_string(), f(1)),
+            ("f".to_string(), Ent::Dir),
+            ("emp".to_string(), Ent::Dir),
+            ("d/e.txt".to_string(), Ent::Dir),
+        ]),
+        build_tree(&[("d/e".to_string(), f(1)), ("a b/é.txt".to_string(), f(2)), ("d/.txt".to_string(), f(0))]),
+    ];
+    let mut l = vec![new_line(id, g, lang, &s0, &arch, &trees)];
+    let dirs = ["", ".", "d", "d/", "d/e", "d/.hd", "f", "g", "emp", "nope", "nope/x", "q", "a b", "d/e/x.txt", "./d"];
+    let pats = ["~", "*", "**/*", "*.txt", "**/*.txt", "*.lz", "**/*.lz", "e/*", "d/*", ".hd/*", "f/*", "nope/*"];
+    for d in dirs {
+        for p in pats {
+            let ph = if p == "~" { "~".to_string() } else { hexs(p) };
+            l.push(format!("{} list {} {} 0", id, hexs(d), ph));
+        }
+        l.push(format!("{} subdirs {} 0", id, hexs(d)));
+        l.push(format!("{} list {} ~ 1", id, hexs(d)));
+        l.push(format!("{} subdirs {} 1", id, hexs(d)));
+    }
+    l
+}
+
+/// The POSIX / std behaviours the model fixes (DESIGN §6 C12 modelling notes), each determined by
+/// experiment against the real code; also kept as corpus cases `corpus/C12/posix-*.case`.
+fn posix_cases(rng: &mut Rng, id_q: &str, id_w: &str) -> Vec<String> {
+    let (s0, arch) = base_payloads(rng);
+    let f = |i: usize| Ent::File(i);
+    let trees = vec![
+        build_tree(&[("d/e/x.txt".to_string(), f(2)), ("f".to_string(), f(1)), (".h".to_string(), f(0))]),
+        build_tree(&[
+            ("d/z.txt".to_string(), f(2)),
+            ("g".to_string(), f(1)),
+            ("f".to_string(), Ent::Dir),
+            ("emp".to_string(), Ent::Dir),
+        ]),
+    ];
+    let mut l = vec![new_line(id_q, "FE14", "EnglishNA", &s0, &arch, &trees)];
+    // queries: trailing slash makes `exists` true only for directories and `file_exists` false; a path
+    // through a regular file does not exist; a file below a directory of the same name is still read
+    for p in ["", ".", "d", "d/", "d/.", "f", "f/", "g", "g/", "g/x", "nope", "nope/", "d/e/x.txt", "d/e/x.txt/", "./d", "d//e", "emp", "emp/"] {
+        for op in ["exists", "file_exists", "directory_exists", "resolve", "read"] {
+            l.push(format!("{} {} {} 0", id_q, op, hexs(p)));
+        }
+    }
+    // listing a path that is a file / missing / empty yields the empty list
+    for p in ["f", "g", "nope", "emp", "", ".", "d/", "d/e/x.txt", "./d", "d/."] {
+        l.push(format!("{} list {} ~ 0", id_q, hexs(p)));
+        l.push(format!("{} list {} {} 0", id_q, hexs(p), hexs("*")));
+        l.push(format!("{} subdirs {} 0", id_q, hexs(p)));
+    }
+    l.push(new_line(id_w, "FE14", "EnglishNA", &s0, &arch, &trees));
+    // writes: through a file => err, nothing created; onto a directory => err; trailing slash => err but
+    // the parent directories have been created; a directory may be created where a lower layer has a file
+    for (i, p) in ["g/x", "d", "d/", "", "n1/n2/", "n3/n4/t", "f", "f/q", "g", "emp", "m1/m2", "m1/m2/m3/", "m1/m2/m3/m4", "d/e/x.txt/k/j", ".", "k/.", "./w"]
+        .iter()
+        .enumerate()
+    {
+        l.push(format!("{} write {} p{} 0", id_w, hexs(p), 1 + (i % 4)));
+    }
+    for p in ["", "c1/c2/", "g", "g/x", "d", "c1", ".", "m1/m2/z", "c3/./c4"] {
+        l.push(format!("{} create_dir {} 0", id_w, hexs(p)));
+    }
+    l
+}
+
+pub fn gen(seed: u64, tier: &str) -> Vec<String> {
+    let mut rng = Rng::new(seed ^ 0xF5F5);
+    let thorough = tier == "thorough";
+    let mut lines = Vec::new();
+    let mut n = 0;
+    let mut next_id = |n: &mut usize| {
+        *n += 1;
+        format!("fs.{:06}", *n - 1)
+    };
+    // 0. the modelled POSIX behaviours
+    {
+        let (a, b) = (next_id(&mut n), next_id(&mut n));
+        lines.extend(posix_cases(&mut rng, &a, &b));
+    }
+    // A. configuration: every game (incl. the two unsupported ones) x every language (quick: all games x
+    //    a rotating half of the languages)
+    for (gi, g) in GAMES.iter().enumerate() {
+        for (li, lang) in LANGS.iter().enumerate() {
+            if !thorough && (li + gi + seed as usize) % 2 == 1 {
+                continue;
+            }
+            let id = next_id(&mut n);
+            lines.extend(config_case(&mut rng, &id, g, lang));
+        }
+    }
+    // no layers at all
+    {
+        let id = next_id(&mut n);
+        let (s0, arch) = base_payloads(&mut rng);
+        lines.push(new_line(&id, "FE14", "EnglishNA", &s0, &arch, &[]));
+        lines.push(format!("{} read {} 0", id, hexs("a")));
+    }
+    // B. systematic listing block
+    for (g, lang) in [("FE14", "EnglishNA"), ("FE10", "EnglishEU")] {
+        let id = next_id(&mut n);
+        lines.extend(listing_case(&mut rng, &id, g, lang));
+    }
+    // C. random histories; games x languages round-robin so that every pair occurs
+    let cases = if thorough { 12000 } else { 1000 };
+    for i in 0..cases {
+        let g = GAMES[(i + seed as usize) % 5];
+        let lang = LANGS[((i / 5) + seed as usize) % 8];
+        let nl = 1 + (rng.below(4) as usize);
+        let id = next_id(&mut n);
+        lines.extend(history_case(&mut rng, &id, g, lang, nl, 30));
+    }
+    lines
+}
+
+// ---------------------------------------------------------------------------------------------
+// runner
+// ---------------------------------------------------------------------------------------------
+
+struct FsState {
+    id: String,
+    base: PathBuf,
+    roots: Vec<String>,
+    fs: Option<LayeredFilesystem>,
+    payloads: Vec<Vec<u8>>,
+}
+impl Drop for FsState {
+    fn drop(&mut self) {
+        let _ = std::fs::remove_dir_all(&self.base);
+        if let Some(p) = self.base.parent() {
+            let _ = std::fs::remove_dir(p); // only succeeds when no other run is using it
+        }
+    }
+}
+
+fn work_dir() -> PathBuf {
+    // <worktree>/work/target/<profile>/mila-harness  ->  <worktree>/work
+    if let Ok(exe) = std::env::current_exe() {
+        if let Some(w) = exe.ancestors().nth(3) {
+            if w.file_name().map(|n| n == "work").unwrap_or(false) {
+                return w.to_path_buf();
+            }
+        }
+    }
+    Path::new(env!("CARGO_MANIFEST_DIR")).join("../work")
+}
+
+fn err_class(e: &LayeredFilesystemError) -> &'static str {
+    use LayeredFilesystemError as E;
+    match e {
+        E::NoLayers | E::NoWriteableLayers | E::OtherError(_) => "Other",
+        E::FileNotFound(..) => "NotFound",
+        E::ReadError(..) | E::WriteError(..) | E::IOError(_) => "Io",
+        E::UnsupportedGame => "Unsupported",
+        E::PatternError(_) => "Invalid",
+        E::LocalizationError(l) => match l {
+            LocalizationError::UnsupportedLanguage => "Unsupported",
+            LocalizationError::MissingParent(_) => "MissingParent",
+            LocalizationError::MissingFileName(_) => "MissingFileName",
+            _ => "Io",
+        },
+        E::CompressionError(_) => "Decoding",
+        E::ArchiveError(_) | E::TextArchiveError(_) | E::TextureParseError(_) | E::ArcError(_) => "Invalid",
+    }
+}
+
+fn walk_dir(root: &Path, rel: &str, out: &mut Vec<(String, Option<Vec<u8>>)>) {
+    let dir = if rel.is_empty() { root.to_path_buf() } else { root.join(rel) };
+    let rd = match std::fs::read_dir(&dir) {
+        Ok(r) => r,
+        Err(_) => return,
+    };
+    for e in rd.flatten() {
+        let name = e.file_name().to_string_lossy().to_string();
+        let r = if rel.is_empty() { name } else { format!("{}/{}", rel, name) };
+        let is_dir = e.file_type().map(|t| t.is_dir()).unwrap_or(false);
+        if is_dir {
+            out.push((r.clone(), None));
+            walk_dir(root, &r, out);
+        } else {
+            out.push((r, Some(std::fs::read(e.path()).unwrap_or_default())));
+        }
+    }
+}
+fn walks(roots: &[String]) -> String {
+    let mut s = String::new();
+    for r in roots {
+        let mut es = Vec::new();
+        walk_dir(Path::new(r), "", &mut es);
+        es.sort_by(|a, b| a.0.as_bytes().cmp(b.0.as_bytes()));
+        s.push(' ');
+        if es.is_empty() {
+            s.push('-');
+        } else {
+            let v: Vec<String> = es
+                .iter()
+                .map(|(p, c)| match c {
+                    None => format!("{}:d", hexs(p)),
+                    Some(b) => format!("{}:f:{}", hexs(p), hex(b)),
+                })
+                .collect();
+            s.push_str(&v.join(","));
+        }
+    }
+    s
+}
+
+fn res_unit(r: Result<Result<(), LayeredFilesystemError>, String>) -> String {
+    match r {
+        Err(_) => "panic".to_string(),
+        Ok(Ok(())) => "ok".to_string(),
+        Ok(Err(e)) => format!("err {}", err_class(&e)),
+    }
+}
+fn res_bool(r: Result<Result<bool, LayeredFilesystemError>, String>) -> String {
+    match r {
+        Err(_) => "panic".to_string(),
+        Ok(Ok(b)) => format!("ok {}", b01(b)),
+        Ok(Err(e)) => format!("err {}", err_class(&e)),
+    }
+}
+fn res_dig<T>(r: Result<Result<T, LayeredFilesystemError>, String>, f: impl Fn(&T) -> String) -> String {
+    match r {
+        Err(_) => "panic".to_string(),
+        Ok(Ok(v)) => format!("ok {}", f(&v)),
+        Ok(Err(e)) => format!("err {}", err_class(&e)),
+    }
+}
+
+fn parse_pidx(s: &str) -> usize {
+    s[1..].parse().unwrap()
+}
+
+pub fn run_line(st: &mut super::State, line: &str) -> String {
+    let f: Vec<&str> = line.split(' ').collect();
+    let id = f[0];
+    if f.len() >= 2 && f[1] == "new" {
+        st.any = None; // drops (and removes) the previous case's directories
+        return format!("{} {}", id, run_new(st, &f));
+    }
+    let s = match st.any.as_mut().and_then(|a| a.downcast_mut::<FsState>()) {
+        Some(s) if s.id == id && s.fs.is_some() => s,
+        _ => return format!("{} nostate", id),
+    };
+    let fs = s.fs.as_ref().unwrap();
+    let arg = |i: usize| -> &str { f.get(i).copied().unwrap_or("-") };
+    let loc_at = |i: usize| arg(i) == "1";
+    let out = match f[1] {
+        "write" => {
+            let p = unhexs(arg(2));
+            let b = s.payloads.get(parse_pidx(arg(3))).cloned().unwrap_or_default();
+            res_unit(no_panic(|| fs.write(&p, &b, loc_at(4))))
+        }
+        "read" => {
+            let p = unhexs(arg(2));
+            match no_panic(|| fs.read(&p, loc_at(3))) {
+                Err(_) => "panic".to_string(),
+                Ok(Ok(b)) => format!("ok {}", hex(&b)),
+                Ok(Err(e)) => format!("err {}", err_class(&e)),
+            }
+        }
+        "exists" => res_bool(no_panic(|| fs.exists(&unhexs(arg(2)), loc_at(3)))),
+        "file_exists" => res_bool(no_panic(|| fs.file_exists(&unhexs(arg(2)), loc_at(3)))),
+        "directory_exists" => res_bool(no_panic(|| fs.directory_exists(&unhexs(arg(2)), loc_at(3)))),
+        "create_dir" => res_unit(no_panic(|| fs.create_dir(&unhexs(arg(2)), loc_at(3)))),
+        "resolve" => match no_panic(|| fs.resolve(&unhexs(arg(2)), loc_at(3))) {
+            Err(_) => "panic".to_string(),
+            Ok(None) => "ok ~".to_string(),
+            Ok(Some(pb)) => {
+                let full = pb.display().to_string();
+                let mut r = format!("ok ?:{}", hexs(&full.replace(s.base.to_str().unwrap_or("?"), "BASE")));
+                // highest layer first: a root is never a prefix of another root followed by '/'
+                for (i, root) in s.roots.iter().enumerate() {
+                    if let Some(rest) = full.strip_prefix(root.as_str()) {
+                        if let Some(rest) = rest.strip_prefix('/') {
+                            r = format!("ok L{}:{}", i, hexs(rest));
+                        }
+                    }
+                }
+                r
+            }
+        },
+        "list" | "subdirs" => {
+            let p = unhexs(arg(2));
+            let r = if f[1] == "list" {
+                let pat = if arg(3) == "~" { None } else { Some(unhexs(arg(3))) };
+                no_panic(|| fs.list(&p, pat.as_deref(), loc_at(4)))
+            } else {
+                no_panic(|| fs.subdirectories(&p, loc_at(3)))
+            };
+            match r {
+                Err(_) => "panic".to_string(),
+                Ok(Err(e)) => format!("err {}", err_class(&e)),
+                Ok(Ok(v)) => {
+                    if v.is_empty() {
+                        "ok - -".to_string()
+                    } else {
+                        // "every listed path exists according to the filesystem's own existence queries"
+                        let bits: String = v
+                            .iter()
+                            .map(|x| match no_panic(|| fs.exists(x, false)) {
+                                Ok(Ok(true)) => '1',
+                                _ => '0',
+                            })
+                            .collect();
+                        format!("ok {} {}", v.iter().map(|x| hexs(x)).collect::<Vec<_>>().join(","), bits)
+                    }
+                }
+            }
+        }
+        "read_archive" => res_dig(no_panic(|| fs.read_archive(&unhexs(arg(2)), loc_at(3))), dig_bin),
+        "read_text" => res_dig(no_panic(|| fs.read_text_archive(&unhexs(arg(2)), loc_at(3))), dig_text),
+        "read_fe9arc" => res_dig(no_panic(|| fs.read_fe9_arc(&unhexs(arg(2)), loc_at(3))), dig_pack),
+        "read_arc" => res_dig(no_panic(|| fs.read_arc(&unhexs(arg(2)), loc_at(3))), dig_arc),
+        "read_tpl" => res_dig(no_panic(|| fs.read_tpl_textures(&unhexs(arg(2)), loc_at(3))), |v| dig_tex_vec(v)),
+        "read_bch" => res_dig(no_panic(|| fs.read_bch_textures(&unhexs(arg(2)), loc_at(3))), dig_tex_map),
+        "read_ctpk" => res_dig(no_panic(|| fs.read_ctpk_textures(&unhexs(arg(2)), loc_at(3))), dig_tex_map),
+        "read_cgfx" => res_dig(no_panic(|| fs.read_cgfx_textures(&unhexs(arg(2)), loc_at(3))), dig_tex_map),
+        "write_archive" => {
+            let k = parse_pidx(arg(3));
+            res_unit(no_panic(|| fs.write_archive(&unhexs(arg(2)), &bin_archive(k), loc_at(4))))
+        }
+        "write_text" => {
+            let k = parse_pidx(arg(3));
+            res_unit(no_panic(|| fs.write_text_archive(&unhexs(arg(2)), &text_archive(k), loc_at(4))))
+        }
+        "cfg" => {
+            let e = match fs.endian() {
+                Endian::Big => "Big",
+                Endian::Little => "Little",
+            };
+            let t = match fs.text_archive_format() {
+                TextArchiveFormat::ShiftJIS => "ShiftJIS",
+                TextArchiveFormat::Unicode => "Unicode",
+            };
+            // the localizer in use, observed through a probe path and the filesystem's own language
+            let l = match no_panic(|| fs.localizer().localize("p/q", &fs.language())) {
+                Err(_) => "panic".to_string(),
+                Ok(Ok(x)) => hexs(&x),
+                Ok(Err(_)) => "!".to_string(),
+            };
+            format!("ok {} {} {}", e, t, l)
+        }
+        _ => "bad-op".to_string(),
+    };
+    format!("{} {} |{}", id, out, walks(&s.roots))
+}
+
+fn run_new(st: &mut super::State, f: &[&str]) -> String {
+    let id = f[0];
+    let g = f[2];
+    let lang = f[3];
+    let n: usize = f[4].parse().unwrap();
+    let payloads: Vec<Vec<u8>> = if f[5] == "-" { vec![] } else { f[5].split(';').map(|r| unhex(r.split(',').next().unwrap())).collect() };
+    let base = work_dir().join("fsrun").join(format!("{}-{}", std::process::id(), id.replace('.', "_")));
+    let _ = std::fs::remove_dir_all(&base);
+    std::fs::create_dir_all(&base).unwrap();
+    let mut roots = Vec::new();
+    for i in 0..n {
+        let r = base.join(format!("l{}", i));
+        std::fs::create_dir_all(&r).unwrap();
+        let tree = f[7 + i];
+        if tree != "-" {
+            for e in tree.split(',') {
+                let p: Vec<&str> = e.split(':').collect();
+                let path = r.join(unhexs(p[0]));
+                if p[1] == "d" {
+                    std::fs::create_dir_all(&path).unwrap();
+                } else {
+                    std::fs::write(&path, &payloads[parse_pidx(p[2])]).unwrap();
+                }
+            }
+        }
+        roots.push(r.display().to_string());
+    }
+    let r = no_panic(|| LayeredFilesystem::new(roots.clone(), language(lang), game(g)));
+    let (fs, out) = match r {
+        Err(_) => (None, "panic".to_string()),
+        Ok(Err(e)) => (None, format!("err {}", err_class(&e))),
+        Ok(Ok(fs)) => (Some(fs), "ok".to_string()),
+    };
+    let w = walks(&roots);
+    st.any = Some(Box::new(FsState { id: id.to_string(), base, roots, fs, payloads }));
+    format!("{} |{}", out, w)
 }
